@@ -130,10 +130,20 @@ def run_class(rep, rule, mod, scope_prefix, sspec, table, default=None, external
         used += 1
     obs = summarize(it, run)
     # report under demangled-ish names
-    for o in obs:
-        fobj = mod.fn(o['function'])
+    def nice(n):
+        fobj = mod.fn(n)
         if fobj is not None and fobj.srcname:
-            o['function'] = fobj.qualname + sig_suffix(fobj)
+            return fobj.qualname + sig_suffix(fobj)
+        return n
+    for o in obs:
+        stack = o.get('call_stack') or []
+        if stack:
+            o['root'] = nice(stack[0].split('@')[0])
+            o['leaf'] = nice(o['function'])
+            if o['root'] == o['leaf']:
+                o['function'] = o['root']
+        else:
+            o['function'] = nice(o['function'])
     rep.add_absint(rule, obs)
     a = rep.extra.setdefault('absint', {})
     a['accesses_checked'] = a.get('accesses_checked', 0) + it.checked
